@@ -1598,7 +1598,7 @@ def _chains(task, st, space, rec, vio_factory):
 
 def on_abort(task, info):
     """The worker process died while exploring a valid structure: an observed outcome of the library/engine."""
-    key = f'C16|process-aborted-on-a-valid-structure|{task.get("st")}:{task.get("part")}'
+    key = f'C16|process-aborted-on-a-valid-structure|{task.get("st")}'
     return dict(key=key, what=f'[{task.get("st")}] the process died (exit {info.get("exitcode")}) during part {task.get("part")}: '
                 f'{(info.get("log_tail") or "")[-300:]}', case=dict({k: v for k, v in task.items() if k != 'fresh'}, key=key),
                 expected='no abort', observed=f'exit {info.get("exitcode")}')
